@@ -1,8 +1,9 @@
-import InTotoModel.Model.Basic
+import InTotoModel.Model.Md
 /-
   SHA-256 (FIPS 180-4), executable.  An independent implementation used by the driver to recompute
-  key ids and file digests; nothing is proved about it (collision resistance is an assumption where a
-  theorem speaks about "distinct keys have distinct ids").
+  key ids and file digests.  Its compression function is not the subject of any theorem (collision
+  resistance is an assumption where a theorem speaks about "distinct keys have distinct ids"); the
+  iteration over blocks is `Model/Md.lean`, whose streaming theorem applies to it.
 -/
 namespace InToto.Sha256
 
@@ -16,7 +17,19 @@ def K : Array UInt32 := #[
   0x19a4c116, 0x1e376c08, 0x2748774c, 0x34b0bcb5, 0x391c0cb3, 0x4ed8aa4a, 0x5b9cca4f, 0x682e6ff3,
   0x748f82ee, 0x78a5636f, 0x84c87814, 0x8cc70208, 0x90befffa, 0xa4506ceb, 0xbef9a3f7, 0xc67178f2]
 
-def H0 : Array UInt32 := #[0x6a09e667, 0xbb67ae85, 0x3c6ef372, 0xa54ff53a, 0x510e527f, 0x9b05688c, 0x1f83d9ab, 0x5be0cd19]
+/-- the chaining value: eight words -/
+structure W8 where
+  a : UInt32
+  b : UInt32
+  c : UInt32
+  d : UInt32
+  e : UInt32
+  f : UInt32
+  g : UInt32
+  h : UInt32
+  deriving DecidableEq, Repr
+
+def H0 : W8 := ⟨0x6a09e667, 0xbb67ae85, 0x3c6ef372, 0xa54ff53a, 0x510e527f, 0x9b05688c, 0x1f83d9ab, 0x5be0cd19⟩
 
 @[inline] def rotr (x : UInt32) (n : UInt32) : UInt32 := (x >>> n) ||| (x <<< (32 - n))
 
@@ -30,7 +43,7 @@ def pad (msg : Bytes) : Bytes :=
 def word (b : Array UInt8) (i : Nat) : UInt32 :=
   (b[i]!.toUInt32 <<< 24) ||| (b[i + 1]!.toUInt32 <<< 16) ||| (b[i + 2]!.toUInt32 <<< 8) ||| b[i + 3]!.toUInt32
 
-def compress (h : Array UInt32) (block : Array UInt8) : Array UInt32 := Id.run do
+def compress (h : W8) (block : Array UInt8) : W8 := Id.run do
   let mut w : Array UInt32 := Array.replicate 64 0
   for t in [0:16] do
     w := w.set! t (word block (4 * t))
@@ -38,14 +51,14 @@ def compress (h : Array UInt32) (block : Array UInt8) : Array UInt32 := Id.run d
     let s0 := rotr w[t - 15]! 7 ^^^ rotr w[t - 15]! 18 ^^^ (w[t - 15]! >>> 3)
     let s1 := rotr w[t - 2]! 17 ^^^ rotr w[t - 2]! 19 ^^^ (w[t - 2]! >>> 10)
     w := w.set! t (w[t - 16]! + s0 + w[t - 7]! + s1)
-  let mut a := h[0]!
-  let mut b := h[1]!
-  let mut c := h[2]!
-  let mut d := h[3]!
-  let mut e := h[4]!
-  let mut f := h[5]!
-  let mut g := h[6]!
-  let mut hh := h[7]!
+  let mut a := h.a
+  let mut b := h.b
+  let mut c := h.c
+  let mut d := h.d
+  let mut e := h.e
+  let mut f := h.f
+  let mut g := h.g
+  let mut hh := h.h
   for t in [0:64] do
     let S1 := rotr e 6 ^^^ rotr e 11 ^^^ rotr e 25
     let ch := (e &&& f) ^^^ ((~~~ e) &&& g)
@@ -61,19 +74,25 @@ def compress (h : Array UInt32) (block : Array UInt8) : Array UInt32 := Id.run d
     c := b
     b := a
     a := t1 + t2
-  return #[h[0]! + a, h[1]! + b, h[2]! + c, h[3]! + d, h[4]! + e, h[5]! + f, h[6]! + g, h[7]! + hh]
+  return ⟨h.a + a, h.b + b, h.c + c, h.d + d, h.e + e, h.f + f, h.g + g, h.h + hh⟩
 
-def hash (msg : Bytes) : Bytes := Id.run do
-  let p := (pad msg).toArray
-  let mut h := H0
-  for i in [0:p.size / 64] do
-    h := compress h (p.extract (64 * i) (64 * i + 64))
-  let mut out : Array UInt8 := #[]
-  for x in h do
-    out := out.push (x >>> 24).toUInt8
-    out := out.push (x >>> 16).toUInt8
-    out := out.push (x >>> 8).toUInt8
-    out := out.push x.toUInt8
-  return out.toList
+/-- the padding appended to a message of `len` bytes -/
+def padTail (len : Nat) : Bytes :=
+  [(0x80 : UInt8)] ++ List.replicate ((119 - len % 64) % 64) (0 : UInt8) ++
+    ((List.range 8).map fun i => UInt8.ofNat ((len * 8) >>> (8 * (7 - i)) % 256))
+
+def beBytes (x : UInt32) : Bytes := [(x >>> 24).toUInt8, (x >>> 16).toUInt8, (x >>> 8).toUInt8, x.toUInt8]
+
+def outBytes (s : W8) : Bytes :=
+  beBytes s.a ++ beBytes s.b ++ beBytes s.c ++ beBytes s.d ++ beBytes s.e ++ beBytes s.f ++ beBytes s.g ++ beBytes s.h
+
+/-- SHA-256 as an iterated hash (`Model/Md.lean`) -/
+def alg : Md.Alg W8 :=
+  { block := 64, init := H0, compress := fun h b => compress h b.toArray, padTail := padTail, out := outBytes }
+
+def hash (msg : Bytes) : Bytes := alg.hash msg
+
+/-- a digest has 32 bytes -/
+theorem hash_length (msg : Bytes) : (hash msg).length = 32 := rfl
 
 end InToto.Sha256
